@@ -227,6 +227,34 @@ def pdata_reader_other_pdus_fail(chk, fx, rule):
     chk.floor(rule, "reader functions with a match over Pdu", n, 2)
 
 
+def keyword_lookup(chk, fx, rule):
+    """StandardDataDictionary::by_name (both impls) is the registry's keyword index consulted with the caller's text itself:
+    no branch, early return or rewriting of the text on the way (one level of forwarding to a helper of the crate is followed)"""
+    DS = "dicom_dictionary_std"
+    chk.rule(rule, "StandardDataDictionary::by_name (value and reference impl): straight-line `registry().by_name.get(name)` on the argument itself; one forwarding helper is followed, no branch or early return anywhere on the way")
+    d = fx.crate(DS)
+    fns = [hh for hh in d["hir"] if hh["path"].endswith("DataDictionary>::by_name") and "StandardDataDictionary" in hh["path"]]
+    chk.floor(rule, "by_name impls", len(fns), 2)
+    for hh in fns:
+        bodies = [hh]
+        branches, gets = [], []
+        for c, x in H.calls(hh["body"]):
+            if c and c.startswith(DS + "::") and not c.endswith("::registry") and fx.has_hir(c):
+                bodies.append(fx.hirfn(c))
+                if not all(re.fullmatch(r"\w+", H.show(a, 3)) for a in H.call_args(x)):
+                    branches.append("rewritten-argument@" + c.split("::")[-1])
+        for b in bodies:
+            for x in H.walk(b["body"]):
+                k = H.kind(x)
+                if k in ("if", "match", "ret", "loop"):
+                    branches.append(f"{k}@{b['path'].split('::')[-1]}")
+                if k == "mcall" and x[3] == "get":
+                    gets.append((H.show(x[4], 4), [H.show(a, 4) for a in x[5]]))
+        params = [H.show_pat(p) if not isinstance(p, str) else p for p in hh.get("params", [])]
+        ok = not branches and len(gets) == 1 and re.fullmatch(r"(\w+::)*registry\(\)\.by_name", gets[0][0]) is not None and len(gets[0][1]) == 1 and re.fullmatch(r"&?\w+", gets[0][1][0]) is not None
+        chk.expect(ok, rule, hh["path"].split(" as ")[0].strip("<"), "straight-keyword-index-lookup", "registry().by_name.get(<the argument>) and nothing conditional", {"gets": gets, "branches": branches}, loc=C.fn_loc(hh))
+
+
 def open_options_passthrough(chk, fx, rule):
     """OpenFileOptions::{open_file, from_reader} hand every configured option to the reader unchanged (C09: the preamble option,
     C07: the odd-length strategy, C10: the character set override ... are what the caller set)"""
